@@ -11,10 +11,5 @@ CONSTANTS
   AckTails <- TailsRssi
   Bug = "sl_on_any_3_bytes"
 INVARIANT PropertyHolds
-INVARIANT StepFormHolds
 INVARIANT CompleteAtRest
-INVARIANT SafelinkIffEcho
-INVARIANT NeedsResendingIsNotSafelink
-INVARIANT Lockstep
-INVARIANT TypeOK
 CHECK_DEADLOCK FALSE
